@@ -18,6 +18,9 @@ pub open spec fn apply_entry_canon(k: (BddPtr, BddPtr, BddPtr), s: BddPtr) -> bo
     res_canon(k.0, k.1, k.2, s)
 }
 
+/// the FxHash of a node's (var, low, high), as computed by `UniqueTable::get_or_insert` (A-hash)
+pub uninterp spec fn node_hash(n: BddNode) -> u64;
+
 #[verifier::external_body]
 #[verifier::reject_recursive_types(T)]
 pub struct RobddBuilder<'a, T> { _p: core::marker::PhantomData<(&'a u8, T)> }
@@ -51,6 +54,14 @@ impl<'a, T: IteTable<BddPtr<'a>>> RobddBuilder<'a, T> {
 
     #[verifier::external_body]
     pub fn table_get_or_insert(&'a self, n: BddNode<'a>) -> (r: &'a BddNode<'a>)
+        ensures *r == n,
+    { unimplemented!() }
+
+    /// A-hash: the unique table finds a stored node again only if it is looked up under the hash it was stored under;
+    /// `UniqueTable::get_or_insert` uses the FxHash of (var, low, high), so a direct call must pass that same value
+    #[verifier::external_body]
+    pub fn table_get_or_insert_by_hash(&'a self, hash: u64, n: BddNode<'a>, equality_by_hash: bool) -> (r: &'a BddNode<'a>)
+        requires hash == node_hash(n), !equality_by_hash, // #C02
         ensures *r == n,
     { unimplemented!() }
 }
